@@ -651,6 +651,43 @@ def clause7_salt_method(ctx, P):
            "password is then hashed with another method than the old one", witness=bad.witness() if bad else None)
 
 
+def clause12_crypt_failure_token(ctx, P):
+    """crypt() of libxcrypt reports failure by a token that starts with '*' ("*0", "*1") - never a valid hash - as well as by NULL.
+    What change_password() installs as the account's hash has passed both tests: the installing call is dominated by a NULL test of
+    the crypt() result and by a test of its first character against '*'.  (A stored "*0" matches no password: the account is locked
+    out and the file holds neither the old nor the new credential.)"""
+    cp = P.fn("auth_file.c:change_password")
+    cr = cp.calls("crypt")
+    if not cr:
+        raise AnalysisBroken("change_password: call of crypt() not found")
+    c = cr[0]
+    repl = [s_ for s_ in cp.calls(INSTALLERS)]
+    if not repl:
+        raise AnalysisBroken("change_password: password replacement site not found")
+
+    def is_res(t):
+        return t[0] == "call" and t[3] == c.id
+
+    def not_null(atom, pol):
+        return atom[0] == "cmp" and is_res(atom[2]) and atom[3] == ("null",) and not _polarity_eq(atom, pol)
+
+    def not_star(atom, pol):
+        if atom[0] != "cmp" or atom[3] != ("const", 42) or atom[2][0] != "load":
+            return False
+        a = atom[2][1]
+        if a[0] in ("byteoff", "index") and len(a) > 2 and a[2] in (0, ("const", 0)):
+            a = a[1]
+        return is_res(a) and not _polarity_eq(atom, pol)
+    for s_ in repl:
+        okn = Q.must_pass(P, cp, s_.block, not_null)
+        oks = Q.must_pass(P, cp, s_.block, not_star)
+        ctx.ob("C20.4 R-GATE", cp, Q.ordinal_site(cp, s_, P) + ":hash-is-no-failure-token", okn and oks,
+               "change_password() installs the result of crypt() without the test for %s: libxcrypt reports a failed hash (password "
+               "longer than 512 bytes, method switched off) as \"*0\", which is then stored, written to the file and answered with "
+               "success - neither the new nor the old password authenticates afterwards" %
+               ("NULL and the failure token" if not okn and not oks else "NULL" if not okn else "the failure token (first character '*')"))
+
+
 def run(ctx):
     for cfg in ctx.configs(["default"] if ctx.tier == "quick" else None):
         P, cg = cfg.P, cfg.cg
@@ -661,6 +698,7 @@ def run(ctx):
         clause9_mapped_file(ctx, P)
         clause10_commit_and_salt(ctx, P, cg)
         clause11_write_progress(ctx, P)
+        clause12_crypt_failure_token(ctx, P)
         clause2_atomic(ctx, P, cg)
         clause3_write(ctx, P, cg)
         clause4_effective(ctx, P, cg)
